@@ -379,6 +379,10 @@ func isNestedStructField(ft types.Type) (*types.Named, bool) {
 func (fc *FnCtx) allocObj(st *State, n *types.Named) Term {
 	r := fc.allocRef(st)
 	fc.initObj(st, n, r, 0)
+	if n.Obj().Pkg() != nil && isRepoPkg(n.Obj().Pkg()) {
+		fc.decls.fun("dynType", []string{SInt}, SInt)
+		fc.assume(st, tEq(app(SInt, "dynType", r), intLit(int64(dynTypeID(n)))))
+	}
 	return r
 }
 
@@ -486,7 +490,7 @@ func (fc *FnCtx) typeFact(st *State, v Term, t types.Type) Term {
 		fc.declareSentinels()
 		f := tTrue
 		for _, es := range fc.eng.errStructs {
-			f = tAnd(f, tLe(app(SInt, "as_"+sanitize(es), v), fc.allocTop(st)))
+			f = tAnd(f, tLe(intLit(0), app(SInt, "as_"+sanitize(es), v)), tLe(app(SInt, "as_"+sanitize(es), v), fc.allocTop(st)))
 		}
 		return f
 	}
@@ -659,7 +663,7 @@ func (fc *FnCtx) declareSentinels() {
 		fc.decls.fun("as_"+n, []string{SErr}, SInt)
 		fc.decls.fun("box_"+n, []string{SInt}, SErr)
 		fc.define(T(SBool, fmt.Sprintf("(= (as_%s nilErr) 0)", n)))
-		fc.define(T(SBool, fmt.Sprintf("(forall ((e Err)) (! (<= 0 (as_%s e)) :pattern ((as_%s e))))", n, n)))
+		// (non-negativity of as_T is stated pointwise in typeFact: a quantified axiom here made z3 diverge)
 	}
 	var all []string
 	all = append(all, "nilErr")
@@ -842,6 +846,9 @@ func (fc *FnCtx) lazyCellInit(st *State, k cellKey) (Val, bool) {
 	case string:
 		if strings.HasPrefix(v, "sent:") || strings.HasPrefix(v, "closed:") {
 			return intLit(0), true
+		}
+		if strings.HasPrefix(v, "ctxdone:") {
+			return tFalse, true
 		}
 		if g, ok := fc.eng.ghosts[v]; ok {
 			return fc.decls.constant("ghost_"+sanitize(v)+"_0", specSort(g.Type)), true
@@ -1306,8 +1313,36 @@ func (fc *FnCtx) havocLoop(fr *Frame, st *State, li *loopInfo) {
 			noteAddr(fid, x.Addr)
 		case *ssa.Alloc, *ssa.MakeSlice, *ssa.MakeMap, *ssa.MakeChan, *ssa.MakeClosure, *ssa.MakeInterface:
 			special[keyAlloc] = true
+		case *ssa.Send:
+			if ci := fc.chanInvFor(x.Chan); ci != nil {
+				special[cellKey{0, "sent:" + ci.Key}] = true
+			}
+		case *ssa.Select:
+			for _, s := range x.States {
+				if s.Dir == types.SendOnly {
+					if ci := fc.chanInvFor(s.Chan); ci != nil {
+						special[cellKey{0, "sent:" + ci.Key}] = true
+					}
+				}
+			}
+		}
+		// a store is "fresh" for the loop only if the object it writes was allocated inside the loop body
+		storeOutside := false
+		if sx, ok := instr.(*ssa.Store); ok {
+			if fa, ok := sx.Addr.(*ssa.FieldAddr); ok {
+				if bases, ok := allocBases(fa.X, 0); ok {
+					for _, b := range bases {
+						if !li.body[b.Block()] {
+							storeOutside = true
+						}
+					}
+				}
+			}
 		}
 		for h, kind := range instrWrites(fc.eng, instr) {
+			if storeOutside {
+				kind = wFull
+			}
 			if strings.HasPrefix(h, "$") {
 				special[cellKey{0, h}] = true
 				if h == "$allocTop" {
@@ -1326,8 +1361,10 @@ func (fc *FnCtx) havocLoop(fr *Frame, st *State, li *loopInfo) {
 			}
 			// closures called in the loop may write captured cells
 			if mc, ok := c.Common().Value.(*ssa.MakeClosure); ok {
-				for _, b := range mc.Bindings {
-					noteAddr(fid, b)
+				for i, b := range mc.Bindings {
+					if closureWritesFreeVar(mc.Fn.(*ssa.Function), i, 0) {
+						noteAddr(fid, b)
+					}
 				}
 			}
 		}
@@ -1429,8 +1466,49 @@ func (fc *FnCtx) havocLoop(fr *Frame, st *State, li *loopInfo) {
 			if g, ok := fc.eng.ghosts[name]; ok {
 				st.cells[k] = fc.fresh("gh_"+name, specSort(g.Type))
 			}
+			if strings.HasPrefix(name, "sent:") {
+				// send counters only grow
+				old, has := st.cells[k].(Term)
+				if !has {
+					old = intLit(0)
+				}
+				n := fc.fresh("sentcnt", SInt)
+				fc.assume(st, tGe(n, old))
+				st.cells[k] = n
+			}
 		}
 	}
+}
+
+// closureWritesFreeVar: does the closure (or a closure it creates) store into its idx-th captured variable,
+// or let its address escape to a call?
+func closureWritesFreeVar(fn *ssa.Function, idx int, depth int) bool {
+	if idx >= len(fn.FreeVars) || depth > 4 {
+		return true
+	}
+	fv := fn.FreeVars[idx]
+	if fv.Referrers() == nil {
+		return false
+	}
+	for _, ref := range *fv.Referrers() {
+		switch r := ref.(type) {
+		case *ssa.Store:
+			if r.Addr == fv {
+				return true
+			}
+			return true // address stored somewhere
+		case *ssa.UnOp, *ssa.DebugRef, *ssa.FieldAddr:
+		case *ssa.MakeClosure:
+			for j, b := range r.Bindings {
+				if b == fv && closureWritesFreeVar(r.Fn.(*ssa.Function), j, depth+1) {
+					return true
+				}
+			}
+		default:
+			return true
+		}
+	}
+	return false
 }
 
 // value returns the symbolic value of an SSA value.
@@ -1454,8 +1532,15 @@ func (fc *FnCtx) value(fr *Frame, st *State, v ssa.Value) Val {
 		return val
 	}
 	if fv, ok := v.(*ssa.FreeVar); ok {
-		// free variable of a closure verified on its own: a cell with unknown content
-		pv := &PtrVal{Kind: PCell, Cell: cellKey{fr.id, fv}, Typ: fv.Type().(*types.Pointer).Elem()}
+		// free variable of a closure verified on its own: a captured struct variable is an (unknown)
+		// object reference, anything else a cell with unknown content
+		elem := fv.Type().(*types.Pointer).Elem()
+		if _, ok := isStructVal(elem); ok && namedPath(elem) != "time.Time" {
+			r := fc.havocValue(st, "fv_"+fv.Name(), fv.Type())
+			fr.env[v] = r
+			return r
+		}
+		pv := &PtrVal{Kind: PCell, Cell: cellKey{fr.id, fv}, Typ: elem}
 		fr.env[v] = pv
 		return pv
 	}
